@@ -56,6 +56,8 @@ impl Monitor for C07 {
             ("class:self_loop_edge", 20),
             ("class:scatter_of_empty_array", 5),
             ("class:tournament_merge_order", 6),
+            ("class:arrays_up_to_40", 500),
+            ("class:repeat_run_longer_than_16", 50),
             ("api:gather", 100),
             ("api:scatter", 100),
             ("api:scatter_assign", 100),
